@@ -363,7 +363,205 @@ fn one_run<V: Variant>(seed: u64, run: u64, pool: &KeyPool<V>) -> RunOutcome {
     out
 }
 
+// ---------------------------------------------------------------------------
+// mixed-variant runs: the same caller threads alternate between a Falcon-512
+// and a Falcon-1024 key (sign, then verify on the same thread), so that state
+// kept per thread or per process and not keyed by the variant or the key is
+// exercised across both
+// ---------------------------------------------------------------------------
+
+#[derive(Clone, Debug)]
+pub struct MixedPlan {
+    pub seed512: [u8; 32],
+    pub seed1024: [u8; 32],
+    pub sched_seed: u64,
+    pub switch_exp: Option<u32>,
+    pub boundary: u32,
+    /// per thread: ops; `key` 0 = the Falcon-512 key, 1 = the Falcon-1024 key
+    pub threads: Vec<Vec<Op>>,
+}
+
+impl MixedPlan {
+    fn to_json(&self) -> Value {
+        json!({"kind": "mixed", "seed512_hex": crate::rng::hex(&self.seed512), "seed1024_hex": crate::rng::hex(&self.seed1024),
+               "sched_seed": self.sched_seed, "switch_exp": self.switch_exp, "boundary": self.boundary,
+               "threads": self.threads.iter().map(|t| t.iter().map(|o| o.to_json()).collect::<Vec<_>>()).collect::<Vec<_>>()})
+    }
+    fn from_json(v: &Value) -> Option<MixedPlan> {
+        Some(MixedPlan {
+            seed512: crate::rng::unhex(v.get("seed512_hex")?.as_str()?)?.try_into().ok()?,
+            seed1024: crate::rng::unhex(v.get("seed1024_hex")?.as_str()?)?.try_into().ok()?,
+            sched_seed: v.get("sched_seed")?.as_u64()?,
+            switch_exp: v.get("switch_exp").and_then(|x| x.as_u64()).map(|x| x as u32),
+            boundary: v.get("boundary")?.as_u64()? as u32,
+            threads: v.get("threads")?.as_array()?.iter().map(|t| t.as_array()?.iter().map(Op::from_json).collect::<Option<Vec<_>>>()).collect::<Option<Vec<_>>>()?,
+        })
+    }
+}
+
+type K512 = Arc<(<V512 as Variant>::Sk, <V512 as Variant>::Pk)>;
+type K1024 = Arc<(<V1024 as Variant>::Sk, <V1024 as Variant>::Pk)>;
+
+/// (thread, op, variant, Ok(verified) | Err(description))
+fn run_mixed(plan: &MixedPlan, k512: K512, k1024: K1024) -> (Option<(String, String)>, Stats) {
+    use crate::sched::{run_threads, Handle};
+    use std::rc::Rc;
+    fn one<V: Variant>(sk: &V::Sk, pk: &V::Pk, op: &Op, h: &Rc<Handle>) -> Result<bool, String> {
+        if let Op::Sign { msg, .. } = op {
+            let sp = op.sign_plan().unwrap();
+            let (r, _tr) = world::sign_sim::<V>(sk, msg, &sp, Some(h.clone()));
+            match r {
+                Ok(sig) => {
+                    let bytes = V::sig_to_bytes(&sig);
+                    match crate::guard::guarded(|| match V::sig_from_bytes(&bytes) {
+                        Ok(s) => V::verify(msg, &s, pk),
+                        Err(_) => false,
+                    }) {
+                        Ok(b) => Ok(b),
+                        Err(u) => Err(format!("verify{} {}", V::N, u.signature())),
+                    }
+                }
+                Err(Unwind::NoProgress { .. }) => Err(format!("sign{} makes no progress within its step bound", V::N)),
+                Err(Unwind::Code { location, .. }) => Err(format!("sign{} unwinds at {}", V::N, location)),
+            }
+        } else {
+            Ok(true)
+        }
+    }
+    let bodies: Vec<Box<dyn FnOnce(Rc<Handle>) -> Vec<(usize, Result<bool, String>)> + Send>> = plan
+        .threads
+        .iter()
+        .map(|ops| {
+            let ops = ops.clone();
+            let (a, b) = (k512.clone(), k1024.clone());
+            Box::new(move |h: Rc<Handle>| {
+                let mut out = Vec::new();
+                for op in ops.iter() {
+                    h.boundary();
+                    let key = if let Op::Sign { key, .. } = op { *key } else { 0 };
+                    let r = if key == 0 { one::<V512>(&a.0, &a.1, op, &h) } else { one::<V1024>(&b.0, &b.1, op, &h) };
+                    out.push((if key == 0 { 512usize } else { 1024usize }, r));
+                }
+                out
+            }) as Box<dyn FnOnce(Rc<Handle>) -> Vec<(usize, Result<bool, String>)> + Send>
+        })
+        .collect();
+    let (res, sched) = run_threads(plan.sched_seed, plan.switch_exp, plan.boundary, bodies);
+    let mut st = Stats::default();
+    st.steps += sched.steps;
+    st.add("sched.switches", sched.switches);
+    if sched.switches > 0 {
+        st.interleavings.insert(sched.trace_hash);
+    }
+    let mut class = None;
+    let mut log = sched.trace_hash;
+    for (t, tr) in res.iter().enumerate() {
+        match tr {
+            Err(u) => {
+                class.get_or_insert((format!("simulated thread died outside an operation: {}", u.signature()), format!("thread {}", t)));
+            }
+            Ok(v) => {
+                for (i, (n, r)) in v.iter().enumerate() {
+                    st.evaluations += 1;
+                    st.inc("mixed.sign_then_verify");
+                    log = hash_u64(log, match r { Ok(true) => 1, Ok(false) => 2, Err(_) => 3 });
+                    match r {
+                        Ok(true) => {
+                            st.distinct.insert(hash_u64(hash_u64(sched.trace_hash, t as u64), i as u64));
+                        }
+                        Ok(false) => {
+                            class.get_or_insert((format!("honest signature{} rejected by verify", n), format!("mixed-variant run, thread {} op {}", t, i)));
+                        }
+                        Err(e) => {
+                            class.get_or_insert((e.clone(), format!("mixed-variant run, thread {} op {}", t, i)));
+                        }
+                    }
+                }
+            }
+        }
+    }
+    st.log_hash = log;
+    (class, st)
+}
+
+fn mixed_run(seed: u64, run: u64, p512: &KeyPool<V512>, p1024: &KeyPool<V1024>) -> RunOutcome {
+    let mut rng = Prng::new(report::run_seed(seed, "C01mixed", run));
+    let a = rng.pick(&p512.keys);
+    let b = rng.pick(&p1024.keys);
+    let mut out = RunOutcome::default();
+    let (ka, kb) = match (a.load(), b.load()) {
+        (Ok(x), Ok(y)) => (Arc::new(x), Arc::new(y)),
+        _ => {
+            out.stats.inc("harness.pool_key_not_loadable");
+            return out;
+        }
+    };
+    let nthreads = 1 + rng.usize_below(3);
+    let threads: Vec<Vec<Op>> = (0..nthreads)
+        .map(|_| {
+            (0..2 + rng.usize_below(5))
+                .map(|_| Op::Sign {
+                    key: rng.usize_below(2),
+                    msg: world::message(&mut rng),
+                    stream: rng.next_u64(),
+                    mode: Some(if rng.chance(1, 4) { draw_mode(&mut rng, 512) } else { Mode::Uniform }),
+                    norm_rejects: if rng.chance(1, 5) { 1 } else { 0 },
+                    compress_fails: if rng.chance(1, 5) { 1 } else { 0 },
+                })
+                .collect()
+        })
+        .collect();
+    let plan = MixedPlan {
+        seed512: a.seed,
+        seed1024: b.seed,
+        sched_seed: rng.next_u64(),
+        switch_exp: if nthreads == 1 { None } else { Some(*rng.pick(&[8u32, 10, 12, 14])) },
+        boundary: rng.below(257) as u32,
+        threads,
+    };
+    let (class, st) = run_mixed(&plan, ka.clone(), kb.clone());
+    out.stats = st;
+    out.stats.inc("runs");
+    out.stats.inc("runs.mixed_variant");
+    if let Some((class, detail)) = class {
+        // minimise: single thread, then fewer ops
+        let mut cur = plan.clone();
+        let same = |p: &MixedPlan| !p.threads.is_empty() && run_mixed(p, ka.clone(), kb.clone()).0.map(|c| c.0).as_deref() == Some(class.as_str());
+        for t in 0..plan.threads.len() {
+            let p = MixedPlan { threads: vec![plan.threads[t].clone()], switch_exp: None, ..plan.clone() };
+            if same(&p) {
+                cur = p;
+                break;
+            }
+        }
+        for t in 0..cur.threads.len() {
+            let mut i = 0;
+            while i < cur.threads[t].len() && cur.threads[t].len() > 1 {
+                let mut p = cur.clone();
+                p.threads[t].remove(i);
+                if same(&p) {
+                    cur = p;
+                } else {
+                    i += 1;
+                }
+            }
+        }
+        out.violations.push(Violation { property: PROP, class, detail, replay: cur.to_json(), run });
+    }
+    out
+}
+
+fn replay_mixed(doc: &Value) -> Option<String> {
+    let plan = MixedPlan::from_json(doc)?;
+    let a = world::keygen_sim::<V512>(plan.seed512, None, None).0.ok()?;
+    let b = world::keygen_sim::<V1024>(plan.seed1024, None, None).0.ok()?;
+    run_mixed(&plan, Arc::new(a), Arc::new(b)).0.map(|c| c.0)
+}
+
 pub fn replay(doc: &Value) -> Option<String> {
+    if doc.get("kind").and_then(|k| k.as_str()) == Some("mixed") {
+        return replay_mixed(doc);
+    }
     let plan = WorldPlan::from_json(doc)?;
     run_plan_dyn(&plan)?.class.map(|c| c.0)
 }
@@ -373,6 +571,7 @@ pub struct Ctx {
     pub p1024: KeyPool<V1024>,
     pub runs512: u64,
     pub runs1024: u64,
+    pub runs_mixed: u64,
 }
 
 pub fn context(tier: Tier, seed: u64) -> Result<Ctx, String> {
@@ -389,21 +588,24 @@ pub fn context(tier: Tier, seed: u64) -> Result<Ctx, String> {
             return Err(format!("key pool for variant {} could not be built ({} failures)", n, fails));
         }
     }
-    Ok(Ctx { p512, p1024, runs512, runs1024 })
+    let runs_mixed = (runs512 + runs1024) / 8;
+    Ok(Ctx { p512, p1024, runs512, runs1024, runs_mixed })
 }
 
 fn dispatch(ctx: &Ctx, seed: u64, run: u64) -> RunOutcome {
     // the expensive Falcon-1024 runs are scheduled first
     if run < ctx.runs1024 {
         one_run::<V1024>(seed, run, &ctx.p1024)
-    } else {
+    } else if run < ctx.runs1024 + ctx.runs512 {
         one_run::<V512>(seed, run, &ctx.p512)
+    } else {
+        mixed_run(seed, run, &ctx.p512, &ctx.p1024)
     }
 }
 
 pub fn runner(tier: Tier, seed: u64) -> Option<(u64, Box<dyn Fn(u64) -> RunOutcome + Sync>)> {
     let ctx = context(tier, seed).ok()?;
-    let n = ctx.runs512 + ctx.runs1024;
+    let n = ctx.runs512 + ctx.runs1024 + ctx.runs_mixed;
     Some((n, Box::new(move |run| dispatch(&ctx, seed, run))))
 }
 
@@ -422,13 +624,13 @@ pub fn check(tier: Tier, seed: u64) -> i32 {
             return 2;
         }
     };
-    let out = report::parallel_runs(ctx.runs512 + ctx.runs1024, w, |run| dispatch(&ctx, seed, run));
+    let out = report::parallel_runs(ctx.runs512 + ctx.runs1024 + ctx.runs_mixed, w, |run| dispatch(&ctx, seed, run));
     rep.absorb(out);
     if rep.stats.counters.get("harness.pool_key_not_loadable").copied().unwrap_or(0) > 0 {
         eprintln!("HARNESS-ERROR: pool keys could not be decoded by SecretKey/PublicKey::from_bytes on this tree (see C05)");
         return 2;
     }
-    rep.rule = "a case is one sign (or verifier-thread verify) operation inside a seeded multi-thread plan: 1-8 signer threads and 0-2 verifier threads share one key under the baton scheduler (pre-emption probability 2^-k per entropy draw, k in 3..20 chosen per run from a budget of 10..6000 expected switches, plus operation boundaries), each sign with its own simulator entropy stream in mode E1/E2/E3/E4 and optional buggify-forced retries; non-trivial = the call was pre-empted mid-call, or took a natural or forced retry, or had an entropy fault land; distinct = distinct (schedule trace, thread, resulting signature)".into();
+    rep.rule = "a case is one sign (or verifier-thread verify) operation inside a seeded multi-thread plan: 1-8 signer threads and 0-2 verifier threads share one key under the baton scheduler (pre-emption probability 2^-k per entropy draw, k in 3..20 chosen per run from a budget of 10..6000 expected switches, plus operation boundaries), each sign with its own simulator entropy stream in mode E1/E2/E3/E4 and optional buggify-forced retries; a further eighth of the runs are mixed-variant runs in which the same threads alternate between a Falcon-512 and a Falcon-1024 key (sign, then verify on the same thread); non-trivial = the call was pre-empted mid-call, or took a natural or forced retry, or had an entropy fault land; distinct = distinct (schedule trace, thread, resulting signature)".into();
     rep.assumptions = vec![
         "all of sign's randomness flows through the hooked generator (hook H1); a generator created elsewhere is only visible to C08(b) and to the interleaved==sequential comparison".into(),
         "keys come from a per-invocation pool generated by the current tree".into(),
